@@ -50,9 +50,10 @@ func runC12(c *Ctx) {
 	type regMethod struct {
 		fd    *ast.FuncDecl
 		obj   *types.Func
-		field string
-		pref  string
-		query bool
+		field  string
+		pref   string
+		query  bool
+		writes bool // stores into the map: a recorder — or, when it also answers, a test-and-set
 	}
 	var methods []regMethod
 	for _, fd := range allFuncDecls(p) {
@@ -68,24 +69,11 @@ func runC12(c *Ctx) {
 		// the map field indexed with the parameter, and the constant key prefix
 		ast.Inspect(fd.Body, func(n ast.Node) bool {
 			if ix, ok := n.(*ast.IndexExpr); ok {
-				x := ast.Unparen(ix.X)
-				// the map may be reached through an accessor method of the same type (lazy creation): v.m()[k]
-				if call, ok := x.(*ast.CallExpr); ok && len(call.Args) == 0 {
-					if fn := calleeOf(info, call); fn != nil {
-						for _, afd := range allFuncDecls(p) {
-							if info.Defs[afd.Name] != types.Object(fn) || afd.Recv == nil || recvTypeName(afd.Recv.List[0].Type) != ctxType {
-								continue
-							}
-							ast.Inspect(afd.Body, func(m ast.Node) bool {
-								if ret, ok := m.(*ast.ReturnStmt); ok && len(ret.Results) == 1 {
-									if fse, ok := ast.Unparen(ret.Results[0]).(*ast.SelectorExpr); ok {
-										x = fse
-									}
-								}
-								return true
-							})
-						}
-					}
+				// the map may be reached through an accessor method of the same type (lazy creation): v.m()[k], or through a
+				// helper that is handed the field's address: ensure(&v.m)[k]
+				var x ast.Expr = ast.Unparen(ix.X)
+				if mf := stateMapOf(p, ix.X); mf != nil {
+					x = mf
 				}
 				if se, ok := x.(*ast.SelectorExpr); ok {
 					if _, isMap := info.TypeOf(se).Underlying().(*types.Map); isMap {
@@ -103,6 +91,18 @@ func runC12(c *Ctx) {
 		if rm.field == "" {
 			continue
 		}
+		ast.Inspect(fd.Body, func(n ast.Node) bool {
+			if as, ok := n.(*ast.AssignStmt); ok {
+				for _, l := range as.Lhs {
+					if ix, ok := ast.Unparen(l).(*ast.IndexExpr); ok {
+						if mf := stateMapOf(p, ix.X); mf != nil && mf.Sel.Name == rm.field {
+							rm.writes = true
+						}
+					}
+				}
+			}
+			return true
+		})
 		methods = append(methods, rm)
 		// R2: no package-level variables
 		global := ""
@@ -120,6 +120,9 @@ func runC12(c *Ctx) {
 	pair := func(q regMethod) *regMethod {
 		for i := range methods {
 			m := &methods[i]
+			if q.writes && m.obj == q.obj {
+				return m // a test-and-set: asking records
+			}
 			if !m.query && m.field == q.field && m.pref == q.pref {
 				return m
 			}
@@ -128,6 +131,7 @@ func runC12(c *Ctx) {
 	}
 	// R1: every call of a query
 	nq := 0
+	collectors := map[types.Object]bool{} // functions that put not-yet-rendered items on a list instead of writing them
 	for _, b := range funcBodies(p) {
 		directNodes(b.Body, func(n ast.Node) bool {
 			call, ok := n.(*ast.CallExpr)
@@ -143,6 +147,19 @@ func runC12(c *Ctx) {
 			}
 			if q == nil {
 				return true
+			}
+			// a test-and-set called for its effect only (the answer is dropped) is a recording, not a question
+			if q.writes {
+				dropped := false
+				ast.Inspect(b.Body, func(m ast.Node) bool {
+					if es, ok := m.(*ast.ExprStmt); ok && ast.Unparen(es.X) == ast.Expr(call) {
+						dropped = true
+					}
+					return true
+				})
+				if dropped {
+					return true
+				}
 			}
 			nq++
 			key := fmt.Sprintf("%s|check-then-record:%s", funcKey(p, b.Decl), q.fd.Name.Name)
@@ -187,7 +204,9 @@ func runC12(c *Ctx) {
 				return found
 			}
 			good := false
-			if negated {
+			if q.writes {
+				good = true // the question itself recorded the key
+			} else if negated {
 				good = recCalls(is.Body, is.Body.Pos())
 			} else {
 				// `if Q(k) { return }` / `{ continue }` then record later in the function
@@ -223,6 +242,21 @@ func runC12(c *Ctx) {
 			}
 			if negated {
 				var emits, outside int
+				// the item the question is about: s in hasScriptBeenRendered(s.Name)
+				var item types.Object
+				if len(call.Args) == 1 {
+					root := ast.Unparen(call.Args[0])
+					for {
+						if rs, ok := root.(*ast.SelectorExpr); ok {
+							root = ast.Unparen(rs.X)
+							continue
+						}
+						break
+					}
+					if id, ok := root.(*ast.Ident); ok {
+						item = info.ObjectOf(id)
+					}
+				}
 				ast.Inspect(b.Body, func(m ast.Node) bool {
 					if wc, ok := m.(*ast.CallExpr); ok {
 						if se, ok := wc.Fun.(*ast.SelectorExpr); ok && se.Sel.Name == "WriteString" && len(wc.Args) == 1 {
@@ -234,6 +268,19 @@ func runC12(c *Ctx) {
 								}
 							}
 						}
+						// … or the item is put on the list of what is still to be written (the writing happens in a later
+						// phase, from that list — see the list rule below)
+						if id, ok := wc.Fun.(*ast.Ident); ok && id.Name == "append" && info.Uses[id] == types.Universe.Lookup("append") && item != nil {
+							for _, a := range wc.Args[1:] {
+								if aid, ok := ast.Unparen(a).(*ast.Ident); ok && info.ObjectOf(aid) == item {
+									emits++
+									collectors[info.Defs[b.Decl.Name]] = true
+									if !(is.Body.Pos() <= wc.Pos() && wc.End() <= is.Body.End()) {
+										outside++
+									}
+								}
+							}
+						}
 					}
 					return true
 				})
@@ -242,6 +289,92 @@ func runC12(c *Ctx) {
 			}
 			return true
 		})
+	}
+	// the list rule: a function that writes the .Function / .Class of every element of a list it is given, without asking
+	// the registry itself, may only be given a list that a collector (above) returned
+	for _, b := range funcBodies(p) {
+		if b.Decl == nil || b.Decl.Recv != nil {
+			continue
+		}
+		asks := false
+		var listParam types.Object
+		directNodes(b.Body, func(n ast.Node) bool {
+			if call, ok := n.(*ast.CallExpr); ok {
+				fn := calleeOf(info, call)
+				for i := range methods {
+					if methods[i].query && types.Object(methods[i].obj) == types.Object(fn) {
+						asks = true
+					}
+				}
+			}
+			if rs, ok := n.(*ast.RangeStmt); ok && rs.Value != nil {
+				vid, _ := rs.Value.(*ast.Ident)
+				xid, _ := ast.Unparen(rs.X).(*ast.Ident)
+				if vid == nil || xid == nil || !isParamOf(info, b.Decl, xid) {
+					return true
+				}
+				ast.Inspect(rs.Body, func(m ast.Node) bool {
+					if wc, ok := m.(*ast.CallExpr); ok {
+						if se, ok := wc.Fun.(*ast.SelectorExpr); ok && se.Sel.Name == "WriteString" && len(wc.Args) == 1 {
+							if fs, ok := ast.Unparen(wc.Args[0]).(*ast.SelectorExpr); ok && (fs.Sel.Name == "Function" || fs.Sel.Name == "Class") {
+								if id, ok := ast.Unparen(fs.X).(*ast.Ident); ok && info.ObjectOf(id) == info.ObjectOf(vid) {
+									listParam = info.ObjectOf(xid)
+								}
+							}
+						}
+					}
+					return true
+				})
+			}
+			return true
+		})
+		if asks || listParam == nil {
+			continue
+		}
+		pidx := -1
+		k := 0
+		for _, prm := range b.Decl.Type.Params.List {
+			for _, nm := range prm.Names {
+				if info.Defs[nm] == listParam {
+					pidx = k
+				}
+				k++
+			}
+		}
+		for _, cb := range funcBodies(p) {
+			directNodes(cb.Body, func(n ast.Node) bool {
+				call, ok := n.(*ast.CallExpr)
+				if !ok || types.Object(calleeOf(info, call)) != info.Defs[b.Decl.Name] || pidx < 0 || pidx >= len(call.Args) {
+					return true
+				}
+				// the argument: a call of a collector, or a local assigned (only) from one
+				fromCollector := func(e ast.Expr) bool {
+					cc, ok := ast.Unparen(e).(*ast.CallExpr)
+					return ok && collectors[types.Object(calleeOf(info, cc))]
+				}
+				good := fromCollector(call.Args[pidx])
+				if id, ok := ast.Unparen(call.Args[pidx]).(*ast.Ident); ok && !good {
+					n, all := 0, true
+					ast.Inspect(cb.Body, func(m ast.Node) bool {
+						if as, ok := m.(*ast.AssignStmt); ok && len(as.Lhs) == len(as.Rhs) {
+							for i, l := range as.Lhs {
+								if lid, ok := l.(*ast.Ident); ok && info.ObjectOf(lid) == info.ObjectOf(id) {
+									n++
+									if !fromCollector(as.Rhs[i]) {
+										all = false
+									}
+								}
+							}
+						}
+						return true
+					})
+					good = n > 0 && all
+				}
+				c.check(good, "C12.R1", fmt.Sprintf("%s|list-for:%s|from-a-collector", funcKey(p, cb.Decl), b.Decl.Name.Name), c.pos(call.Pos()), "the list written is what the not-yet-rendered collector returned",
+					fmt.Sprintf("%s hands %s a list (%s) that is not the result of the function that asks the registry: %s writes every element's body, so bodies already rendered in this context are written again", funcKey(p, cb.Decl), b.Decl.Name.Name, types.ExprString(call.Args[pidx]), b.Decl.Name.Name))
+				return true
+			})
+		}
 	}
 	if nq < 3 {
 		c.viol("C12.R1", "anchor-lost:registry-queries", "", fmt.Sprintf("only %d `already rendered?` queries found (scripts, classes, once handles expected)", nq))
@@ -373,7 +506,7 @@ func runC12(c *Ctx) {
 							if se, ok := call.Fun.(*ast.SelectorExpr); ok {
 								if id, ok := se.X.(*ast.Ident); ok && info.ObjectOf(id) == vObj && len(call.Args) == 1 && strings.HasSuffix(types.ExprString(call.Args[0]), ".ID") {
 									for _, m := range methods {
-										if !m.query && m.fd.Name.Name == se.Sel.Name && classKeys[m.field+"|"+m.pref] {
+										if (!m.query || m.writes) && m.fd.Name.Name == se.Sel.Name && classKeys[m.field+"|"+m.pref] {
 											records = true
 										}
 									}
